@@ -70,9 +70,39 @@ def seen_norm(res):
     return {"args": sorted([[n, v] for n, v in res["args"]]), "star": res["star"], "kw": res["kw"]}
 
 
+def equalish_defaults(row):
+    """The same signature with defaults that compare equal but are different objects (0 / False / 0.0, two empty lists):
+    every default must stay on its own parameter name - checked by identity."""
+    from boltons import funcutils
+    sig, mode = row["sig"], row["mode"]
+    f = make_func(sig, False, False)
+    palette = {1: 0, 2: False, 3: 0.0, 4: [], 5: [], 6: 0, 7: 0}
+    if f.__defaults__:
+        f.__defaults__ = tuple(palette[n] for n in sig["pos"][len(sig["pos"]) - sig["ndef"]:])
+    if f.__kwdefaults__:
+        f.__kwdefaults__ = {NAME[k["n"]]: palette[k["n"]] for k in sig["kwo"] if k["d"]}
+    orig = {n: v for n, k, d, v in params_of(f) if d}
+
+    def wrapper(*a, **kw):
+        return None
+    try:
+        if mode == "plain":
+            w = funcutils.wraps(f)(wrapper)
+        elif mode == "inject":
+            w = funcutils.wraps(f, injected=[NAME[row["arg"]]])(wrapper)
+        else:
+            w = funcutils.wraps(f, expected=[("z", 97)] if mode == "expect_default" else ["z"])(wrapper)
+    except Exception as ex:
+        return [("equalish-defaults", "wraps-raised:" + core.exc_name(ex), str(ex)[:200])]
+    moved = {n: [repr(v), repr(orig.get(n))] for n, k, d, v in params_of(w) if d and n != "z" and v is not orig.get(n, v)}
+    if moved:
+        return [("equalish-defaults", "default-values", {"wrapper_default_vs_original": moved})]
+    return []
+
+
 def run_row(row):
     from boltons import funcutils
-    bad = []
+    bad = equalish_defaults(row)
     sig, mode = row["sig"], row["mode"]
     want_params = [[NAME[p[0]], p[1], p[2]] for p in row["wparams"]]
     seen = row["seen"]
